@@ -610,6 +610,27 @@ def gen_cases(rng, tier):
                         for cfg in CFGS:
                             cases.append(mk({'cfg': list(cfg), 'am': am, 'grid': list(full), 'tree': [op, left, right],
                                              'opds': [x, y, z]}))
+    # 1e. a FIXED family: every guarded / domain-restricted unary function on a SHAPED operand that is fully masked by the
+    #     scalar True (also: all-True array, masked exactly on the antimask) and hides out-of-domain numbers (|x| > 1,
+    #     negatives, zeros); alone and combined with an unmasked operand
+    grng = _random.Random(1718)
+    GUARDED = ['w.arcsin', 'w.arccos', 'w.sqrt', 'w.log', 'w.recip', 'w.powhalf', 'w.powm1', 'w.pow1p5', 'w.powm1p5', 'w.powm2',
+               'w.exp', 'w.tan', 'w.arctan', 'w.rdivc', 'w.int', 'w.frac', 'w.sign', 'w.abs', 'w.rmodc', 'sqrt', 'recip']
+    for full in [(3,), (2, 3)]:
+        n = int(np.prod(full, dtype=int))
+        for amk in range(2):
+            bits_ = [(i + amk) % 2 == 0 for i in range(n)]
+            am = {'shape': list(full), 'bits': bits_}
+            for xmask in ('T', [True] * n, [bool(b) for b in bits_]):
+                for dtype in ('float', 'int'):
+                    x = {'shape': list(full), 'vals': [grng.choice([-6, -4, -2, 0, 0, 4, 6, 8]) for _ in range(n)], 'mask': xmask, 'derivs': []}
+                    if dtype == 'int':
+                        x['dtype'] = 'int'
+                    y = {'shape': list(full), 'vals': [grng.choice([1, 3, 5]) for _ in range(n)], 'mask': 'F', 'derivs': []}
+                    for f in GUARDED:
+                        for tree in ([f, ['var', 0]], ['w.add' if f.startswith('w.') else 'add', [f, ['var', 0]], ['var', 1]]):
+                            for cfg in CFGS:
+                                cases.append(mk({'cfg': list(cfg), 'am': am, 'grid': list(full), 'tree': tree, 'opds': [x, y]}))
     # 2. generated scenarios, the four switch settings each
     reps = 8000 if thorough else 350
     for _ in range(reps):
